@@ -142,7 +142,7 @@ def _init():
 def run():
     chk = Check("C04", "model_checking")
     t = tier()
-    sizes = {"small": (500, 6000), "random": (500, 8000), "skewed": (150, 1500), "mset": (150, 2000), "msetdup": (120, 1500), "huge": (12, 60),
+    sizes = {"small": (500, 6000), "random": (500, 8000), "skewed": (150, 1500), "mset": (150, 2000), "msetdup": (120, 1500), "huge": (12, 60), "csv": (100, 1500), "pyobj": (100, 1500), "plist": (80, 1000),
              "xml": (150, 2000)}
     jobs = []
     for kind, (q, th) in sizes.items():
